@@ -276,6 +276,104 @@ func runC20(tw *traceWriter, r *rand.Rand, ops []string, et int32, cred string) 
 				outs = append(outs, output{"wire:krbpriv-after-decrypt", b})
 				wrong := randEncKey(r, et)
 				emitErr("krbpriv-decrypt-wrongkey", kp.DecryptEncPart(wrong))
+			case "keyLookupMiss":
+				// the keytabs hold keys of these principals, but not for the key version / encryption type asked for
+				otherEt := int32(17)
+				if et == 17 {
+					otherEt = 18
+				}
+				alice := types.PrincipalName{NameType: 1, NameString: []string{"alice"}}
+				svc := types.PrincipalName{NameType: 2, NameString: []string{"HTTP", "svc.c20.test"}}
+				_, _, e := kt.GetEncryptionKey(alice, realm, 7, et)
+				emitErr("keytab-lookup-kvno", e)
+				_, _, e = kt.GetEncryptionKey(alice, realm, 1, otherEt)
+				emitErr("keytab-lookup-etype", e)
+				_, _, e = skt.GetEncryptionKey(svc, realm, 7, et)
+				emitErr("keytab-lookup-kvno", e)
+				_, _, e = skt.GetEncryptionKey(svc, realm, 0, otherEt)
+				emitErr("keytab-lookup-etype", e)
+				// a client whose keytab lacks the encryption type it is configured for
+				kt2 := keytab.New()
+				if e := kt2.AddEntry("alice", realm, password, time.Now(), 1, otherEt); e != nil {
+					panic(e)
+				}
+				ko, _, _ := kt2.GetEncryptionKey(alice, realm, 1, otherEt)
+				markers = append(markers, secretMarker{"ltkey", ko.KeyValue})
+				var lb bytes.Buffer
+				c2 := client.NewWithKeytab("alice", realm, kt2, cfg, client.DisablePAFXFAST(true), client.AssumePreAuthentication(r.Intn(2) == 0), client.Logger(log.New(&lb, "", 0)))
+				emitErr("login-keytab-without-etype", c2.Login())
+				outs = append(outs, output{"logline:client-keytab-without-etype", lb.Bytes()})
+				c2.Destroy()
+				// a service offered a ticket sealed with a key version it does not hold
+				if haveTkt {
+					t2 := tkt
+					t2.EncPart.KVNO = 7
+					auth, _ := types.NewAuthenticator(realm, alice)
+					ap, e := messages.NewAPReq(t2, skey, auth)
+					if e != nil {
+						panic(e)
+					}
+					var slog bytes.Buffer
+					_, _, e = service.VerifyAPREQ(&ap, service.NewSettings(skt, service.Logger(log.New(&slog, "", 0))))
+					emitErr("verifyAPREQ-unknown-kvno", e)
+					if ke, ok := e.(messages.KRBError); ok {
+						if b, me := ke.Marshal(); me == nil {
+							outs = append(outs, output{"wire:krberror-unknown-kvno", b})
+						}
+					}
+					outs = append(outs, output{"logline:service-unknown-kvno", slog.Bytes()})
+				}
+			case "embedTicket":
+				var t2 messages.Ticket
+				if haveTkt {
+					addIssuedKeys()
+					t2 = tkt
+					emitErr("decrypt", t2.DecryptEncPart(skt, nil))
+				} else {
+					w, e := newKtWorld(et, r)
+					if e != nil {
+						panic(e)
+					}
+					sess := randEncKey(r, et)
+					markers = append(markers, secretMarker{"svckey", sess.KeyValue}, secretMarker{"svc-ltkey", w.keys["sel"].KeyValue})
+					t2, e = mintTicket(ticketSpec{realmLabel: realmR, snameLabel: princNames["P"], kvnoLabel: 2, etLabel: et, sealKey: w.keys["sel"], sealUsage: 2,
+						sessionKey: sess, crealm: "C.R", cname: []string{"u"}, authTime: time.Now(), start: time.Now().Add(-time.Minute), end: time.Now().Add(time.Hour)})
+					if e != nil {
+						panic(e)
+					}
+					emitErr("decrypt", t2.DecryptEncPart(w.kt, nil))
+				}
+				if rv, e := messages.MarshalTicketSequence([]messages.Ticket{t2, t2}); e == nil {
+					outs = append(outs, output{"wire:ticket-sequence-after-decrypt", rv.FullBytes})
+					outs = append(outs, output{"wire:ticket-sequence-after-decrypt", rv.Bytes})
+				}
+				body := messages.KDCReqBody{KDCOptions: types.NewKrbFlags(), Realm: realm, SName: types.PrincipalName{NameType: 2, NameString: []string{"HTTP", "x"}},
+					Till: time.Now().Add(time.Hour).UTC(), Nonce: 7, EType: []int32{et}, AdditionalTickets: []messages.Ticket{t2}}
+				if b, e := body.Marshal(); e == nil {
+					outs = append(outs, output{"wire:kdc-req-body-additional-ticket", b})
+				} else {
+					emitErr("kdc-req-body-marshal", e)
+				}
+				tgsq := messages.TGSReq{KDCReqFields: messages.KDCReqFields{PVNO: 5, MsgType: 12, ReqBody: body}}
+				if b, e := tgsq.Marshal(); e == nil {
+					outs = append(outs, output{"wire:tgs-req-additional-ticket", b})
+				}
+				enc := types.EncryptedData{EType: et, KVNO: 1, Cipher: rbytes(r, 48)}
+				rep := messages.KDCRepFields{PVNO: 5, CRealm: realm, CName: types.PrincipalName{NameType: 1, NameString: []string{"alice"}}, Ticket: t2, EncPart: enc}
+				asr := messages.ASRep{KDCRepFields: rep}
+				asr.MsgType = 11
+				if b, e := asr.Marshal(); e == nil {
+					outs = append(outs, output{"wire:as-rep-with-decrypted-ticket", b})
+				}
+				tgr := messages.TGSRep{KDCRepFields: rep}
+				tgr.MsgType = 13
+				if b, e := tgr.Marshal(); e == nil {
+					outs = append(outs, output{"wire:tgs-rep-with-decrypted-ticket", b})
+				}
+				apq := messages.APReq{PVNO: 5, MsgType: 14, APOptions: types.NewKrbFlags(), Ticket: t2, EncryptedAuthenticator: enc}
+				if b, e := apq.Marshal(); e == nil {
+					outs = append(outs, output{"wire:ap-req-with-decrypted-ticket", b})
+				}
 			case "destroy":
 				cl.Destroy()
 			}
